@@ -137,6 +137,51 @@ struct WebSocketFrame
     return frame;
   }
 
+  /// \brief What the first bytes of a frame say about it, before its payload has arrived.
+  enum class HeaderStatus
+  {
+    Incomplete,    ///< not enough bytes to tell yet
+    Ok,            ///< acceptable so far (the payload may still be incomplete)
+    ProtocolError, ///< can never become a valid frame (RFC 6455 §5.5: fragmented or >125-byte control frame)
+    TooBig         ///< a non-control frame declares a payload longer than maxPayload
+  };
+
+  /// \brief Inspect a frame header without waiting for its payload.
+  /// parse() answers "incomplete" both for a control frame that violates RFC 6455
+  /// §5.5 and for any declared length it has not received in full, so a caller
+  /// that only buffers until parse() succeeds can be made to buffer without bound.
+  /// Call this first and fail the connection on ProtocolError / TooBig.
+  static HeaderStatus checkHeader(core::BufferView data, std::uint64_t maxPayload)
+  {
+    if (data.size() < 2)
+    {
+      return HeaderStatus::Incomplete;
+    }
+    const std::uint8_t byte0 = data[0];
+    if (((byte0 >> 4) & 0x07) != 0)
+    {
+      return HeaderStatus::Ok; // RSV bits: parse() consumes the buffer and reports the frame
+    }
+    const auto opcode = static_cast<WsOpcode>(byte0 & 0x0F);
+    std::uint64_t payloadLen = data[1] & 0x7F;
+    if (isControlFrame(opcode))
+    {
+      return (payloadLen > 125 || (byte0 & 0x80) == 0) ? HeaderStatus::ProtocolError
+                                                        : HeaderStatus::Ok;
+    }
+    if (payloadLen == 126)
+    {
+      if (data.size() < 4) return HeaderStatus::Incomplete;
+      payloadLen = data.readU16BE(2);
+    }
+    else if (payloadLen == 127)
+    {
+      if (data.size() < 10) return HeaderStatus::Incomplete;
+      payloadLen = data.readU64BE(2);
+    }
+    return payloadLen > maxPayload ? HeaderStatus::TooBig : HeaderStatus::Ok;
+  }
+
   /// \brief Serialize this frame to wire format.
   /// If mask is true, applies a random mask key.
   std::vector<std::uint8_t> serialize(bool applyMask = false) const
